@@ -30,8 +30,12 @@ def gen_cases(ctx):
                                     continue
                                 if n is not None and n >= 4 and (T not in (1, 3) or rk == 'notifbatch'):
                                     continue
-                                for extra in ({}, dict(in_except=True), dict(tracer_kinds=['partial', 'full', 'chain'][:T]), dict(tracer_kinds=['instance', 'late', 'full'][:T]), dict(tracer_kinds=['late', 'instance', 'chain'][:T])):
-                                  if extra and (n not in (None, 1) or via != 'call' or T == 0):
+                                for extra in ({}, dict(in_except=True), dict(tracer_kinds=['partial', 'full', 'chain'][:T]), dict(tracer_kinds=['instance', 'late', 'full'][:T]), dict(tracer_kinds=['late', 'instance', 'chain'][:T]), dict(tracer_kinds=['logging', 'full', 'chain'][:T]), dict(same_exc=True), dict(unserialisable=True)):
+                                  if extra and (n not in (None, 1, 2) or via != 'call' or T == 0):
+                                      continue
+                                  if extra and n == 2 and not extra.get('same_exc'):
+                                      continue
+                                  if extra.get('unserialisable') and rk not in ('single', 'batch'):
                                       continue
                                   yield dict(extra, kind=kind, request=rk, via=via, tracers=T, ctx=tctx, c19=True,
                                            drop=['code_listed2', 'level_listed2', 'exc_listed2', 'exc_sub'],
@@ -52,6 +56,23 @@ def check_execution(cfg, choices, obs, rec):
     names = [n for n, _ in script]
     if 'HORIZON' in names:
         return viol(rec, cfg, choices, 'C19:request sent more than n+1 times', 'bounded', names)
+    if cfg.get('unserialisable'):
+        kinds_ = cfg.get('tracer_kinds') or ['full'] * T
+        vis = [t for t in range(T) if kinds_[t] != 'logging']
+        st_ = cfg.get('client_strategy')
+        # a TypeError is a listed exception for the catch-all strategy: every retry is one more attempt (begin + error)
+        tries = (st_['attempts'] + 1) if (st_ and st_['excs'] == 'wide') else 1
+        want_u = ([(t, 'begin') for t in vis] + [(t, 'error') for t in vis if kinds_[t] != 'partial']) * tries
+        got_u = [(idx, what) for idx, what, _, _, _ in ev]
+        kind_, v_ = obs['outcome']
+        if names or kind_ != 'exc' or not isinstance(v_, TypeError):
+            return viol(rec, cfg, choices, 'C19:unserialisable parameters did not fail before the transport with a TypeError', 'TypeError, nothing sent', (names, kind_, repr(v_)))
+        if got_u != want_u:
+            return viol(rec, cfg, choices, 'C19:begin and completion counts differ' if len([1 for _, w in got_u if w == 'begin']) != len(got_u) - len([1 for _, w in got_u if w == 'begin'])
+                        else 'C19:wrong completion kind or number of events', want_u, got_u)
+        if any(not isinstance(p, TypeError) for _, w, _, _, p in ev if w == 'error') or (ev and [p for _, w, _, _, p in ev if w == 'error'][-1:] not in ([], [v_])):
+            return viol(rec, cfg, choices, 'C19:on_error did not receive the raised exception object', repr(v_), 'another object')
+        return (1, T, ('unserialisable',))
     A = len(script)
     # shape: per attempt, T begins then T completions, tracers in configuration order
     want = []
@@ -59,7 +80,8 @@ def check_execution(cfg, choices, obs, rec):
         comp = 'end' if name in END_OUTCOMES else 'error'
         kinds = cfg.get('tracer_kinds') or ['full'] * T
         # a tracer that does not override on_error sees nothing for a failed attempt (and never an 'end')
-        want += [(t, 'begin', k) for t in range(T)] + [(t, comp, k) for t in range(T) if not (comp == 'error' and kinds[t] == 'partial')]
+        vis = [t for t in range(T) if kinds[t] != 'logging']          # the library's LoggingTracer does not write to the event log
+        want += [(t, 'begin', k) for t in vis] + [(t, comp, k) for t in vis if not (comp == 'error' and kinds[t] == 'partial')]
     got_shape = [(idx, what) for idx, what, _, _, _ in ev]
     if got_shape != [(t, w) for t, w, _ in want]:
         begins = sum(1 for _, w in got_shape if w == 'begin')
